@@ -128,7 +128,8 @@ class Ctx:
         paths = []
         for k, sh in enumerate(shards):
             p = os.path.join(self.work, "%s-shard%d-%d.json" % (module, self.nid, k))
-            common.dump_json(p, {"hdr": header or {}, "events": sh})
+            # the "case" member is the replay recipe: kept on our side, not part of what the spec judges
+            common.dump_json(p, {"hdr": header or {}, "events": [{k: v for k, v in e.items() if k != "case"} for e in sh]})
             paths.append(p)
         verdicts = {}
 
